@@ -431,7 +431,7 @@ def element_method(tree, cls, method, prefix, nnodes, nrows):
         if bad:
             raise Unsupported('Jacobian %d mentions %s' % (m, sorted(bad)))
         out += 'Definition %sJ_%d %s : (R * R * R) * (R * R * R) * (R * R * R) :=\n  (%s).\n\n' % (prefix, m, _params(xs), body)
-        sigs['%sJ_%d' % (prefix, m)] = xs
+        sigs['%sJ_%d' % (prefix, m)] = dict(params=xs, body=[[coq(v) for v in row] for row in J.rows])
     for r in sorted(df.out):
         body = ',\n   '.join(coq(v) for v in df.out[r])
         invs = sorted({int(k) for k in re.findall(r'\bv(\d+)_\d\d\b', body)})
@@ -441,7 +441,7 @@ def element_method(tree, cls, method, prefix, nnodes, nrows):
             raise Unsupported('row %d mentions %s' % (r, sorted(bad)))
         out += '(* inverse calls used: %s *)\nDefinition %srow_%d %s : R * R * R :=\n  (%s).\n\n' % (
             invs, prefix, r, _params(xs + fs + vs), body)
-        sigs['%srow_%d' % (prefix, r)] = (xs + fs + vs, invs)
+        sigs['%srow_%d' % (prefix, r)] = dict(params=xs + fs + vs, invs=invs, body=[coq(v) for v in df.out[r]])
     return out, sigs
 
 
@@ -457,6 +457,15 @@ def dispatch_table(tree, cls, method, stubs, upto):
             raise Unsupported('more than one element method selected for %d rows' % n)
         tab.append(stubs.index(calls[0]) + 1 if calls else 0)
     return tab
+
+
+def eval_exact(text, env):
+    """Evaluate the text of a generated (division-free or rational-literal) Coq R expression exactly with
+    Fractions.  Only used to produce *hints* for certificate proofs (the kernel re-checks every value)."""
+    import re
+    from fractions import Fraction
+    py = re.sub(r'(?<![A-Za-z_0-9])(\d+)(?![A-Za-z_0-9])', r'F(\1)', text)
+    return eval(py, {'__builtins__': {}, 'F': Fraction}, dict(env))     # noqa: S307 (text produced by this module)
 
 
 def translate_item(tree, it):
